@@ -1,3 +1,4 @@
+import collections
 """Per-property configuration: which operations, which input streams, which Lean modules."""
 import os, json, collections, random
 from . import core
@@ -321,6 +322,21 @@ def quire_state_history(qt, rng):
     n = QT[qt]; w = {8: 32, 16: 128, 32: 512}[n]
     M = (1 << w) - 1
     t = rng.random()
+    if w > 32 and rng.random() < 0.3:
+        # sparse limb images: each 64-bit limb is zero (mostly), a single top or bottom bit, all ones or random - a predicate or a carry
+        # chain that skips ONE limb shows only on images whose other limbs are zero
+        v = 0
+        for _ in range(w // 64):
+            r_ = rng.random()
+            limb = 0 if r_ < 0.55 else (1 << 63 if r_ < 0.67 else (1 if r_ < 0.77 else ((1 << 64) - 1 if r_ < 0.85 else rng.getrandbits(64))))
+            v = (v << 64) | limb
+        if rng.random() < 0.5: v = (v & ((1 << (w - 64)) - 1)) | (rng.choice((1 << 63, 0, (1 << 64) - 1, (1 << 63) | 1)) << (w - 64))
+        toks = ['fb', '%x' % (v & M)]
+        if rng.random() < 0.5:
+            from .gen_inputs import anyp as _anyp
+            toks += [rng.choice(('ap', 'sp')), '%x' % _anyp(n, rng), '%x' % _anyp(n, rng)] if rng.random() < 0.6 else [rng.choice(('a1', 's1', 'neg', 'rt'))] 
+            if toks[-1] in ('a1', 's1'): toks.append('%x' % _anyp(n, rng))
+        return qt + ' hist ' + ' '.join(toks)
     if t < 0.45:
         k = rng.randint(0, w - 2); v = 1 << k
         d = rng.choice((0, 0, 1, -1, 1 << rng.randint(0, max(0, k - 1)) if k else 0, (1 << k) - 1, rng.getrandbits(k) if k else 0))
@@ -365,6 +381,39 @@ def quire_boundary_spellings(qt, rng, count):
                 for f in forms:
                     out.append('%s hist fb %x %s' % (qt, S, f.format(o=one) % p))
     return out
+
+def quire_tie_history_px(N, rng):
+    """`q32 histpx N`: exact sum = (an N-bit es=2 posit) + (exactly half an ulp of the N-bit format) +- (one tiny term): the three conversions
+    of the accumulator into PxE2<N> are decided by the tiny term alone.  The tiny term is placed at every distance below the leading bit,
+    with extra weight on 62..66 positions below it (the seam of the 64-bit working window) and on the bottom of the quire."""
+    import sys
+    from fractions import Fraction as Fr
+    sp = os.path.join(core.VERIF, 'tools')
+    if sp not in sys.path: sys.path.insert(0, sp)
+    from pyspec import rnd, to_rat, ilog2
+    sh = 32 - N; maxe = (N - 2) * 4
+    def pw(e): return rnd(N, 2, Fr(2) ** e) << sh
+    def split(t):
+        x = max(-maxe, min(maxe, t // 2)); return pw(x), pw(t - x)
+    for _ in range(200):
+        p = rng.randint(1, (1 << (N - 1)) - 2)
+        v = to_rat(N, 2, p); nx = to_rat(N, 2, p + 1); e = ilog2(v)
+        if ilog2(nx) != e and nx != Fr(2) ** (e + 1): continue
+        half = (nx - v) / 2; th = ilog2(half)
+        if half != Fr(2) ** th or abs(th) > 2 * maxe: continue
+        lo = max(-240, -2 * maxe)
+        if th - 1 < lo: continue
+        r_ = rng.random()
+        if r_ < 0.4: s_ = e - rng.choice((62, 63, 64, 64, 64, 65, 66))
+        elif r_ < 0.5: s_ = lo
+        else: s_ = rng.randint(lo, th - 1)
+        s_ = max(lo, min(th - 1, s_))
+        if abs(s_) > 2 * maxe: continue
+        terms = [['a1', p << sh], ['ap', *split(th)], [rng.choice(('ap', 'sp')), *split(s_)]]
+        if rng.random() < 0.5: terms = [[{'a1': 's1', 'ap': 'sp', 'sp': 'ap'}[t[0]]] + t[1:] for t in terms]
+        rng.shuffle(terms)
+        return 'q32 histpx %x %s' % (N, ' '.join(x if isinstance(x, str) else '%x' % x for t in terms for x in t))
+    return 'q32 histpx %x a1 %x' % (N, 1 << 30)
 
 def quire_history_px(N, rng, maxlen=10):
     """the same grammar on Q32E2 with PxE2<N> operands: N-bit posit patterns left-aligned in 32 bits (no inherent mp/ms methods)"""
@@ -434,8 +483,10 @@ def trig_worst_cases(count):
         res += [p, (-p) & M32]
     return res
 
-SCANS = {'C06': ['sqrt'], 'C09': ['round', 'floor', 'ceil', 'trunc', 'fract'], 'C07': ['to_i32', 'to_u32', 'to_i64', 'to_u64', 'from_i32', 'from_u32'],
-         'C03': ['to_f64', 'to_f32'], 'C02': ['from_f32', 'p16_from_f32', 'p8_from_f32'], 'C08': ['to_p16_m', 'to_p8_m'], 'C01': ['p16-pairs', 'wide:p32'], 'C05': ['wide:p32fma', 'wide:p16fma']}
+SCANS = {'C06': ['sqrt'], 'C09': ['round', 'floor', 'ceil', 'trunc', 'fract'],
+         'C07': ['to_i32', 'to_u32', 'to_i64', 'to_u64', 'from_i32', 'from_u32', 'p16_from_u64', 'p16_from_i64', 'p8_from_u64', 'p8_from_i64', 'from_u64w', 'from_i64w'],
+         'C10': ['classify'], 'C13': ['px:px2-binary', 'px:px1-binary', 'wide:px2fma'], 'C14': ['px:px2-unary', 'px:px1-unary'],
+         'C03': ['to_f64', 'to_f32', 'rt_f64', 'rt_str'], 'C02': ['from_f32', 'p16_from_f32', 'p8_from_f32'], 'C08': ['to_p16_m', 'to_p8_m'], 'C01': ['p16-pairs', 'wide:p32'], 'C05': ['wide:p32fma', 'wide:p16fma']}
 SCAN_LOG = []
 SCAN_SEED = [1]
 def exhaustive_scans(pid, tier):
@@ -450,6 +501,20 @@ def exhaustive_scans(pid, tier):
         if op == 'p16-pairs':
             stride = 1 if (tier == 'thorough' or pid == 'C01') else 16
             cmd = [exe, '--p16-scan', str(stride), '500']; space = (65536 // stride) * 65536 * 4
+        elif op.startswith('px:'):
+            # generic-width types: binary + - * / on ALL operand pairs for every N <= 14 (16 in the thorough tier); unary conversions (and PxE2 sqrt)
+            # on ALL patterns for every N <= 28 (32 in the thorough tier)
+            binary = op.endswith('binary')
+            nb = (16 if binary else 32) if tier == 'thorough' else (14 if binary else 28)
+            cmd = [exe, '--px-scan', op[3:], str(nb), '300']
+            space = sum(4 * (1 << (2 * n)) for n in range(2, nb + 1)) if binary else sum((10 if 'px2' in op else 9) * (1 << n) for n in range(2, nb + 1))
+        elif op == 'rt_str':
+            st_ = 4 if tier == 'thorough' else 64      # decimal formatting + parsing is slow: every 64th (thorough: 4th) pattern
+            cmd = [exe, '--scan', op, '2000']; space = (1 << 32) // st_; os.environ['VERIF_SCAN_STRIDE'] = str(st_)
+        elif op in ('from_u64w', 'from_i64w'):
+            # NOT exhaustive: every 4th (thorough: every) 32-bit significand at 4 shifts, with and without a low sticky bit
+            st_ = 1 if tier == 'thorough' else 4
+            cmd = [exe, '--scan', op, '2000']; space = (1 << 32) // st_ * 8; os.environ['VERIF_SCAN_STRIDE'] = str(st_)
         elif op.startswith('wide:'):
             # NOT exhaustive: massive structured sampling (random / regime-and-fraction patterns / neighbours of a and -a / for the fused
             # operations addends next to the negated rounded product) against the exact reference
@@ -464,7 +529,7 @@ def exhaustive_scans(pid, tier):
         except Exception:
             ok = False; cand = []
         if op == 'sqrt': cand = ['p32 sqrt ' + c for c in cand]
-        SCAN_LOG.append({'scan': op, 'exhaustive': not op.startswith('wide:'), 'inputs': space if ok else 0, 'candidates': len(cand), 'wall_s': round(time.time() - t0, 1), 'ran': ok})
+        SCAN_LOG.append({'scan': op, 'exhaustive': not (op.startswith('wide:') or op in ('from_u64w', 'from_i64w') or op == 'rt_str'), 'inputs': space if ok else 0, 'candidates': len(cand), 'wall_s': round(time.time() - t0, 1), 'ran': ok})
         for c in cand:
             out.append(c)
             t = c.split()
@@ -498,12 +563,26 @@ def extra_streams(pid, tier, rng, scale):
         for N in range(2, 33):
             for _ in range(cntpx):
                 lines.append(quire_history_px(N, rng))
+            if N >= 5:
+                for _ in range(max(40, cntpx // 2)):
+                    lines.append(quire_tie_history_px(N, rng))
             sh = 32 - N
             for a in range(1 << min(N, 9)):          # every (or the first 512) single N-bit posit(s): quire round trip
                 lines.append('q32 histpx %x fp %x' % (N, a << sh)); lines.append('q32 histpx %x a1 %x' % (N, ((a << (N - min(N, 9))) & ((1 << N) - 1)) << sh))
     if pid in ('C17', 'C16'):
         for qt in QT: lines += quire_boundary_spellings(qt, rng, (60 if pid == 'C17' else 10) * scale * big)
     if pid == 'C17':
+        # generic-width types: the same inputs through the spelled and the inherent form (compared pairwise by agreement_failures)
+        pxl = px_streams('C14', 'quick', rng, scale) + px_streams('C13', 'quick', rng, scale) + px_streams('C10', 'quick', rng, scale)
+        byop = collections.defaultdict(list)
+        for l in pxl:
+            t = l.split(' ', 2); byop[(t[0], t[1])].append(t[2])
+        for ty in PX:
+            for a_, b_ in px_forwarders(ty):
+                tails = byop.get((ty, b_), [])
+                if len(tails) > 6000: tails = rng.sample(tails, 6000)
+                for tl in tails:
+                    lines.append('%s %s %s' % (ty, a_, tl)); lines.append('%s %s %s' % (ty, b_, tl))
         # agreement pairs: the spelled operation and the inherent one on IDENTICAL inputs (compared pairwise by the check)
         for ty in TYPES:
             n = TYPES[ty]['n']
@@ -531,6 +610,23 @@ def extra_streams(pid, tier, rng, scale):
                         return (v if rng.getrandbits(1) else -v) & ((1 << n) - 1)
                     x = P(); cs = [P() for _ in range(k)]
                     if mode == 5 and rng.random() < 0.3: cs[rng.randrange(k)] = rng.choice((0, nar))
+                    lines.append('%s poly %s %x %s' % (ty, d, x, ' '.join('%x' % c for c in cs)))
+                # sparse arrays: all coefficients zero except one or two powers of two, x a power of two of any scale: stage sums at the very
+                # bottom / top of the quire (a single tiny term must round to +-minpos, never to zero)
+                import sys as _sys
+                _sp = os.path.join(core.VERIF, 'tools')
+                if _sp not in _sys.path: _sys.path.insert(0, _sp)
+                from pyspec import rnd as _rnd
+                from fractions import Fraction as _Fr
+                es_ = {8: 0, 16: 1, 32: 2}[n]; maxe = (n - 2) * (1 << es_)
+                for i in range(max(20, per // 10)):
+                    ex = rng.randint(-maxe, maxe) if rng.random() < 0.7 else rng.choice((-maxe, -maxe + 1, -maxe // 2, maxe))
+                    x = _rnd(n, es_, _Fr(2) ** ex)
+                    if rng.random() < 0.3: x = (-x) & ((1 << n) - 1)
+                    cs = [0] * k
+                    for _ in range(rng.choice((1, 1, 2))):
+                        c_ = _rnd(n, es_, _Fr(2) ** rng.randint(-maxe, maxe))
+                        cs[rng.randrange(k)] = c_ if rng.random() < 0.7 else (-c_) & ((1 << n) - 1)
                     lines.append('%s poly %s %x %s' % (ty, d, x, ' '.join('%x' % c for c in cs)))
         if pid == 'C18':
             for x in range(256):      # P8E0 poly1/poly2: every x with a few coefficient sets
@@ -659,6 +755,16 @@ def extra_streams(pid, tier, rng, scale):
                 lines.append('%s hist a1 %x rt neg neg' % (qt, x))
     return lines
 
+def px_forwarders(ty):
+    """spelled / inherent pairs of the generic-width types (same argument kinds)"""
+    P = [(o + '_assign', o) for o in ('add', 'sub', 'mul', 'div')]
+    for k in ('i32', 'u32', 'i64', 'u64'): P += [('From_' + k, 'from_' + k), (k + '_From', 'to_' + k)]
+    P += [('From_f64', 'from_f64'), ('From_f32', 'from_f32'), ('f64_From', 'to_f64'), ('f32_From', 'to_f32')]
+    for o in TYPES: P += [('to_' + o, 'to_' + o + '_m'), ('from_' + o, 'from_' + o + '_m')]
+    P += [('gg_From_px1', 'gg_from_px1'), ('gg_From_px2', 'gg_from_px2'), ('op_lt', 'lt'), ('op_le', 'le'), ('op_gt', 'gt'), ('op_ge', 'ge'), ('op_eq', 'eq'), ('Ord_cmp', 'cmp')]
+    have = {op for (op, *_r) in px_ops(ty)}
+    return [(a, b) for a, b in P if a in have and b in have]
+
 def agreement_failures(pid, tag):
     """C17: every spelled operation must return the same bits as the inherent operation on the same input"""
     import glob
@@ -673,6 +779,14 @@ def agreement_failures(pid, tag):
     out = []
     for ty in TYPES:
         for (a_, b_, args) in forwarders(ty):
+            ra, rb = res.get((ty, a_)), res.get((ty, b_))
+            if not ra or not rb: continue
+            for av, r in ra.items():
+                r2 = rb.get(av)
+                if r2 is not None and r2 != r:
+                    out.append({'kind': 'AGREE', 'ty': ty, 'op': a_, 'args': av.split(), 'impl': r, 'want': '%s (= %s.%s)' % (r2, ty, b_), 'line': ''})
+    for ty in PX:
+        for a_, b_ in px_forwarders(ty):
             ra, rb = res.get((ty, a_)), res.get((ty, b_))
             if not ra or not rb: continue
             for av, r in ra.items():
